@@ -669,9 +669,9 @@ func (st *State) finishPath(k endKind, msg string) {
 	}
 	switch k {
 	case endPanic:
-		if j.labelActive("panic") {
-			st.recordViolation("panic", "panic", msg)
-		}
+		// a Go panic escaping the code under test is a violation of whatever property the job decides: the run
+		// that should have produced the stated result crashed instead (no unchanged-tree job has a panic path)
+		st.recordViolation("panic", "panic", msg)
 	case endUnsupported:
 		if len(j.inconclusive) < 20 {
 			j.inconclusive = append(j.inconclusive, "unsupported: "+msg)
